@@ -41,6 +41,61 @@ FULL = ALPHA6 + ["I", "J", "r", "F", "Y2", "Y3", "Y0", "C5", "D", "d"]
 LOOKAHEAD, LENGTH = {"N", "T"}, {"L", "R", "r"}
 
 
+class Plain:
+    """a user object without __eq__ / __len__ (truthy, compared by identity)"""
+    def __repr__(self):
+        return "<Plain>"
+
+
+class SubStr(str):
+    """a str subclass"""
+
+
+PLAIN = Plain()
+
+
+def item_classes():
+    """model item id -> Python values that are equal to each other (==) and to nothing in another class;
+    odd ids are truthy, even ids falsy (the loop filters of the templates are `if x` / `if not x`)"""
+    from markupsafe import Markup
+    return {1: [1, True, 1.0], 3: ["a", Markup("a"), SubStr("a")], 5: [(1, 2), (True, 2.0)], 7: [PLAIN],
+            2: [None], 4: [0, False, 0.0], 6: ["", Markup(""), SubStr("")], 8: [(), ()]}
+
+
+ITEM_CLASSES = None
+
+
+def reify(ids):
+    """the Python items of a case: a deterministic member of each id's class, varying with the position"""
+    global ITEM_CLASSES
+    if ITEM_CLASSES is None:
+        ITEM_CLASSES = item_classes()
+    out = []
+    for pos, i in enumerate(ids):
+        members = ITEM_CLASSES[i]
+        out.append(members[(pos + i) % len(members)])
+    return out
+
+
+def id_of(v):
+    global ITEM_CLASSES
+    if ITEM_CLASSES is None:
+        ITEM_CLASSES = item_classes()
+    for i, members in ITEM_CLASSES.items():
+        for m in members:
+            if v is m:
+                return i
+    for i, members in ITEM_CLASSES.items():
+        for m in members:
+            try:
+                if type(v) in (type(m), bool, int, float, str) or isinstance(v, type(m)):
+                    if v == m and (isinstance(v, (int, float)) == isinstance(m, (int, float))):
+                        return i
+            except Exception:  # noqa
+                pass
+    return None
+
+
 class Canon:
     def __init__(self, jinja2):
         from jinja2.runtime import Undefined
@@ -59,7 +114,14 @@ class Canon:
     def item(self, v):
         if isinstance(v, self.Undefined):
             return self.a(v)
-        return f"v{v}"
+        k = id_of(v)
+        if k is not None:
+            return f"v{k}"
+        return f"v{v}" if isinstance(v, int) else "?" + type(v).__name__
+
+    def iid(self, v):
+        k = id_of(v)
+        return str(k) if k is not None else "?" + type(v).__name__
 
 
 def ask_sync(cn, loop, q, item):
@@ -143,11 +205,11 @@ SIZED = {"list": "S", "tuple": "S", "iter": "U", "gen": "U", "agen": "U", "onlyi
 
 def drive_sync(cn, LoopContext, Undefined, kind, xs, script, d0):
     try:
-        lc = LoopContext(MAKE[kind](xs), Undefined, None, d0)
+        lc = LoopContext(MAKE[kind](reify(xs)), Undefined, None, d0)
         out, i = [], 0
         for item, loop in lc:
             qs = script[i] if i < len(script) else []
-            out.append(f"{item}:" + ";".join(ask_sync(cn, loop, q, item) for q in qs))
+            out.append(f"{cn.iid(item)}:" + ";".join(ask_sync(cn, loop, q, item) for q in qs))
             i += 1
             if i > len(xs) + 3:
                 return "X:runaway"
@@ -158,14 +220,14 @@ def drive_sync(cn, LoopContext, Undefined, kind, xs, script, d0):
 
 async def drive_async(cn, AsyncLoopContext, Undefined, kind, xs, script, d0):
     try:
-        lc = AsyncLoopContext(MAKE[kind](xs), Undefined, None, d0)
+        lc = AsyncLoopContext(MAKE[kind](reify(xs)), Undefined, None, d0)
         out, i = [], 0
         async for item, loop in lc:
             qs = script[i] if i < len(script) else []
             ans = []
             for q in qs:
                 ans.append(await ask_async(cn, loop, q, item))
-            out.append(f"{item}:" + ";".join(ans))
+            out.append(f"{cn.iid(item)}:" + ";".join(ans))
             i += 1
             if i > len(xs) + 3:
                 return "X:runaway"
@@ -187,7 +249,7 @@ TQ = {"L": "loop.length|a", "I": "loop.index0|a", "J": "loop.index|a", "R": "loo
       "F": "loop.first|a", "T": "loop.last|a", "P": "loop.previtem|it", "N": "loop.nextitem|it",
       "Y2": "loop.cycle(101, 102)|it", "Y3": "loop.cycle(101, 102, 103)|it", "Cx": "loop.changed(x)|a",
       "C5": "loop.changed(5)|a", "D": "loop.depth|a", "d": "loop.depth0|a"}
-FILTERS = {"-": "", "o": " if x is odd", "e": " if x is even", "n": " if x > 100"}
+FILTERS = {"-": "", "o": " if x", "e": " if not x", "n": " if x is none and x"}
 
 
 PRELUDES = ["", "{% macro mm(loop) %}{% endmacro %}", "{% with loop = 5 %}{% endwith %}",
@@ -209,7 +271,7 @@ def template_source(script, flt, prelude=0, scoped_wrap=False):
         # the only mentions of `loop` sit in a scoped block that is not a direct child of the loop body
         chain = body[len(PRELUDES[prelude]):]
         body = PRELUDES[prelude] + "{% if 1 %}{% block qq scoped %}" + chain + "{% endblock %}{% endif %}"
-    return "{% for x in xs" + FILTERS[flt] + " %}{{ x }}:" + body + "|{% else %}ELSE{% endfor %}"
+    return "{% for x in xs" + FILTERS[flt] + " %}{{ x|iid }}:" + body + "|{% else %}ELSE{% endfor %}"
 
 
 def nested_template_source(qs, place, flt):
@@ -221,7 +283,7 @@ def nested_template_source(qs, place, flt):
     else:
         inner = "".join("{% for c in ['bT'] if " + ("loop.first" if q == "F" else "loop.last") + " %}{{ c }}{% else %}bF{% endfor %};"
                         for q in qs)
-    return "{% for x in xs" + FILTERS[flt] + " %}{{ x }}:" + inner + "|{% else %}ELSE{% endfor %}"
+    return "{% for x in xs" + FILTERS[flt] + " %}{{ x|iid }}:" + inner + "|{% else %}ELSE{% endfor %}"
 
 
 CTL_TAG = {"C": "{% continue %}", "B": "{% break %}"}
@@ -231,7 +293,7 @@ def template_source_ctl(script, ctls, flt, uniform=None):
     """loop body with jinja2.ext.loopcontrols: `continue` / `break` after the queries of an iteration;
     uniform = 'C' / 'B': an unconditional control at the end of a body that never mentions `loop`"""
     if uniform:
-        return "{% for x in xs" + FILTERS[flt] + " %}|{{ x }}:" + CTL_TAG[uniform] + "{% else %}ELSE{% endfor %}"
+        return "{% for x in xs" + FILTERS[flt] + " %}|{{ x|iid }}:" + CTL_TAG[uniform] + "{% else %}ELSE{% endfor %}"
     body, first = "", True
     for i in range(max(len(script), len(ctls))):
         qs = script[i] if i < len(script) else []
@@ -242,7 +304,7 @@ def template_source_ctl(script, ctls, flt, uniform=None):
         first = False
     if not first:
         body += "{% endif %}"
-    return "{% for x in xs" + FILTERS[flt] + " %}|{{ x }}:" + body + "{% else %}ELSE{% endfor %}"
+    return "{% for x in xs" + FILTERS[flt] + " %}|{{ x|iid }}:" + body + "{% else %}ELSE{% endfor %}"
 
 
 def norm_ctl_output(out):
@@ -437,7 +499,7 @@ def run(ctx):
     ctx.count("exhaustive_scripts", len(scripts))
     for _ in range(ctx.size(3000, 40000)):
         n = ctx.rng.randint(0, 6)
-        xs = [ctx.rng.randint(1, 3) for _ in range(n)]
+        xs = [ctx.rng.randint(1, 8) for _ in range(n)]
         script = [[ctx.rng.choice(FULL) for _ in range(ctx.rng.randint(0, 3))] for _ in range(ctx.rng.randint(0, n + 1))]
         scripts.append((xs, script))
         ctx.count("random_scripts")
@@ -499,6 +561,7 @@ def run(ctx):
         env = jinja2.Environment(enable_async=(mode == "async"))
         env.filters["a"] = cn.a
         env.filters["it"] = cn.item
+        env.filters["iid"] = cn.iid
         envs[mode] = env
     n_tpl = ctx.size(1500, 15000)
     tcases = []
@@ -518,7 +581,7 @@ def run(ctx):
         src = template_source(c["script"], c["filter"], c["prelude"], c["scoped_wrap"])
         try:
             t = envs[mode].from_string(src)
-            data = MAKE[c["iterable"]](c["items"])
+            data = MAKE[c["iterable"]](reify(c["items"]))
             real = asyncio.run(t.render_async(xs=data)) if mode == "async" else t.render(xs=data)
             real = norm_template_output(real)
         except Exception as e:  # noqa
@@ -542,7 +605,7 @@ def run(ctx):
     ncases = []
     for j in range(ctx.size(900, 9000)):
         n = ctx.rng.randint(0, 5)
-        xs = [ctx.rng.randint(1, 3) for _ in range(n)]
+        xs = [ctx.rng.randint(1, 8) for _ in range(n)]
         place = ("iter", "else", "test")[j % 3]
         if place == "test":
             qs = [ctx.rng.choice(["F", "T"]) for _ in range(ctx.rng.randint(1, 2))]
@@ -561,7 +624,7 @@ def run(ctx):
         src = nested_template_source(c["script"][0], c["place"], c["filter"])
         try:
             t = envs[mode].from_string(src)
-            data = MAKE[c["iterable"]](c["items"])
+            data = MAKE[c["iterable"]](reify(c["items"]))
             real = asyncio.run(t.render_async(xs=data)) if mode == "async" else t.render(xs=data)
             real = norm_template_output(real.replace(";|", "|"))
         except Exception as e:  # noqa
@@ -584,6 +647,7 @@ def run(ctx):
         env = jinja2.Environment(enable_async=(mode == "async"), extensions=["jinja2.ext.loopcontrols"])
         env.filters["a"] = cn.a
         env.filters["it"] = cn.item
+        env.filters["iid"] = cn.iid
         lc_envs[mode] = env
     lcases = []
     for j in range(ctx.size(1200, 12000)):
@@ -606,7 +670,7 @@ def run(ctx):
         src = template_source_ctl(c["script"], c["ctls"], c["filter"], c["uniform"])
         try:
             t = lc_envs[mode].from_string(src)
-            data = MAKE[c["iterable"]](c["items"])
+            data = MAKE[c["iterable"]](reify(c["items"]))
             real = asyncio.run(t.render_async(xs=data)) if mode == "async" else t.render(xs=data)
             real = norm_ctl_output(real)
         except Exception as e:  # noqa
@@ -677,6 +741,7 @@ def replay(ctx, data):
         env = jinja2.Environment(enable_async=(mode == "async"))
         env.filters["a"] = cn.a
         env.filters["it"] = cn.item
+        env.filters["iid"] = cn.iid
         envs[mode] = env
     via = case["via"]
     if via.startswith("recursive/"):
@@ -697,7 +762,7 @@ def replay(ctx, data):
         mode = via.split("/")[1]
         if via.startswith("loopcontrols/"):
             env = jinja2.Environment(enable_async=(mode == "async"), extensions=["jinja2.ext.loopcontrols"])
-            env.filters["a"], env.filters["it"] = cn.a, cn.item
+            env.filters["a"], env.filters["it"], env.filters["iid"] = cn.a, cn.item, cn.iid
             src, norm = template_source_ctl(case["script"], case["ctls"], flt, case.get("uniform")), norm_ctl_output
         elif via.startswith("nested/"):
             env, src = envs[mode], nested_template_source(case["script"][0], case["place"], flt)
@@ -706,7 +771,7 @@ def replay(ctx, data):
             env, src, norm = envs[mode], template_source(case["script"], flt, case.get("prelude", 0), case.get("scoped_wrap", False)), norm_template_output
         print("template:", src)
         t = env.from_string(src)
-        dat = MAKE[case["iterable"]](case["items"])
+        dat = MAKE[case["iterable"]](reify(case["items"]))
         try:
             real = norm(asyncio.run(t.render_async(xs=dat)) if mode == "async" else t.render(xs=dat))
         except Exception as e:  # noqa
